@@ -397,7 +397,7 @@ def _own_pairs_term():
     return M.seq_map(handlers_t, M.mk_tuple2(attr_selector(M.HOLE), M.HOLE))
 
 
-@unit("BaseOverlay.enter-exit", ["C05", "C17"], [O + ":BaseOverlay.__enter__", O + ":BaseOverlay.__exit__", O + ":HandlerCollection.plus",
+@unit("BaseOverlay.enter-exit", ["C05", "C17", "C09"], [O + ":BaseOverlay.__enter__", O + ":BaseOverlay.__exit__", O + ":HandlerCollection.plus",
                                                 O + ":HandlerCollection.__init__"],
       assumed=["contextvars.ContextVar: get() returns the current value (or the default), set(v) returns a token remembering the previous value, reset(token) restores it"])
 def u_overlay_enter_exit(c):
@@ -418,7 +418,19 @@ def u_overlay_enter_exit(c):
         handlers.term = handlers_t
     # the empty overlay is built by the real constructor (its attributes are exactly those __init__ sets)
     ov = it.call(it.get_global(O, "BaseOverlay"), [], {}) if empty else mk_obj(it, O, "BaseOverlay", handlers=handlers)
-    had = c.choose(2)
+    had = c.choose(3)
+    if had == 2 and not empty:
+        # the current collection is the EMPTY collection made by proceed for a call that started under no overlay (a generator that is
+        # still suspended, or the overlay is entered inside an instrumented function): it belongs to that frame and must not be touched
+        prev = it.call(HC, [[]], {})
+        var.value = prev
+        st, col = run(it, it.getattr(ov, "__enter__"), [])
+        c.prove("enter-over-an-empty-collection/new-collection-previous-one-left-empty", st == "ok" and var.value is not prev and col is var.value
+                and prev.fields["handler_pairs"] == [], note=f"{st}", only=["C05", "C09"])
+        st, _ = run(it, it.getattr(ov, "__exit__"), [None, None, None])
+        c.prove("enter-over-an-empty-collection/exit-restores-it-still-empty", st == "ok" and var.value is prev and prev.fields["handler_pairs"] == [], only=["C05", "C09"])
+        return
+    had = had % 2
     if had:
         prev_pairs = SymSeq("old_pairs", z3.Int("m"), lambda i: None)
         prev_pairs.term = oldpairs_t
@@ -465,7 +477,9 @@ def u_overlay_exit_nonlifo(c):
     mkh = lambda nm: SymObj(nm, Val.ref(z3.IntVal(c.new_id())), attrs={"selector": SymObj("sel_" + nm, Val.ref(z3.IntVal(c.new_id())))})
     own = [mkh(f"own{i}") for i in range(1 + c.choose(2, "own"))]
     later_h = [mkh(f"later{i}") for i in range(1 + c.choose(2, "later"))]
-    had = c.choose(2, "previous")
+    had = c.choose(3, "previous")
+    empty_prev = had == 2  # the EMPTY collection proceed makes for a call that started under no overlay (suspended generator)
+    had = 1 if had == 1 else 0
     prev_pair = (SymObj("psel", Val.ref(z3.IntVal(c.new_id()))), mkh("prev"))
     if c.choose(2, "same-selector"):
         # selectors are interned: two probes given the same selector text carry the very same selector object; what belongs
@@ -473,7 +487,7 @@ def u_overlay_exit_nonlifo(c):
         later_h[0].attrs["selector"] = own[0].attrs["selector"]
         prev_pair[1].attrs["selector"] = own[0].attrs["selector"]
         prev_pair = (own[0].attrs["selector"], prev_pair[1])
-    prev = mk_obj(it, O, "HandlerCollection", handler_pairs=[prev_pair]) if had else None
+    prev = mk_obj(it, O, "HandlerCollection", handler_pairs=[prev_pair]) if had else (mk_obj(it, O, "HandlerCollection", handler_pairs=[]) if empty_prev else None)
     var.value = prev
     ov1 = mk_obj(it, O, "BaseOverlay", handlers=list(own))
     ov2 = mk_obj(it, O, "BaseOverlay", handlers=list(later_h))
@@ -491,7 +505,8 @@ def u_overlay_exit_nonlifo(c):
     c.prove("exit/non-LIFO-removes-exactly-own-handlers", ids(pairs()) == ([id(prev_pair[1])] if had else []) + [id(h) for h in later_h])
     st, _ = run(it, it.getattr(ov2, "__exit__"), [None, None, None])
     c.prove("exit/second-exit-leaves-what-was-there-before-both", st == "ok" and ids(pairs()) == ([id(prev_pair[1])] if had else []))
-    c.prove("frame/previous-collection-object-untouched", (not had) or prev.fields["handler_pairs"] == [prev_pair])
+    c.prove("frame/previous-collection-object-untouched", (prev is None) or prev.fields["handler_pairs"] == ([prev_pair] if had else []),
+            note=f"previous pairs now {len(prev.fields['handler_pairs']) if prev is not None else None}")
 
 
 ev_proceed = z3.Function("ev_proceed", Val, Val, Val)
